@@ -992,7 +992,9 @@ def _format_value(value):
   try:
     if parse_value(literal) == value:
       return literal
-  except SyntaxError:
+  except Exception:  # pylint: disable=broad-except
+    # Not only SyntaxError: e.g. tokenizer errors for unbalanced brackets, or
+    # ValueError/KeyError for a repr that looks like a reference ("@name").
     pass
   return None
 
